@@ -265,6 +265,8 @@ func evalVariantsPair(c *core.Ctx, tabs *Tables, refRow, qryRow string, regions 
 	return evalVariantsPairWith(c, tabs, refRow, qryRow, regions, nil)
 }
 
+var variantPairEvals int
+
 // evalVariantsPairWith: preRegions, if given, are the (regions, intergenic) values returned by an interpreted constructor.
 func evalVariantsPairWith(c *core.Ctx, tabs *Tables, refRow, qryRow string, regions []regionSpec, preRegions []eval.Value) (variantsOut, error) {
 	fn := c.LookupFunc("pkg/variants", "GetVariantsPair")
@@ -291,7 +293,11 @@ func evalVariantsPairWith(c *core.Ctx, tabs *Tables, refRow, qryRow string, regi
 	if preRegions != nil {
 		regsV, interV = preRegions[0], preRegions[1]
 	}
-	v, err := ev.CallFunc(fn, encodeRow(tabs, refRow), encodeRow(tabs, qryRow), eval.S("ref"), eval.S("qry"), eval.K(3),
+	// the record's input index is irrelevant to its mutation list: the family alternates between the first record of a
+	// file (index 0) and later ones
+	variantPairEvals++
+	idx := []int64{0, 3, 1}[variantPairEvals%3]
+	v, err := ev.CallFunc(fn, encodeRow(tabs, refRow), encodeRow(tabs, qryRow), eval.S("ref"), eval.S("qry"), eval.K(idx),
 		regsV, interV, ot[0], ot[1])
 	if err != nil {
 		return variantsOut{}, err
@@ -352,6 +358,43 @@ func variantPairs(tier string) []pairCase {
 			q := []byte(ref)
 			q[p] = alt
 			out = append(out, pairCase{ref, string(q), fmt.Sprintf("site %d -> %c", p+1, alt)})
+		}
+	}
+	// thorough: two changes at every pair of sites (same codon, neighbouring codons, far apart; bases, N and gaps)
+	if tier == "thorough" {
+		for i := 0; i < len(ref); i++ {
+			for j := i + 1; j < len(ref); j++ {
+				for _, a := range []byte("ACGTN-") {
+					for _, b := range []byte("ACGTN-") {
+						if a == ref[i] || b == ref[j] {
+							continue
+						}
+						q := []byte(ref)
+						q[i], q[j] = a, b
+						out = append(out, pairCase{ref, string(q), fmt.Sprintf("sites %d -> %c and %d -> %c", i+1, a, j+1, b)})
+					}
+				}
+			}
+		}
+	}
+	// one change in a codon and another in the next codon (a premature stop followed by a further change among them)
+	for p := 0; p+3 < len(ref); p++ {
+		for _, d := range []int{3, 4, 5} {
+			if p+d >= len(ref) {
+				continue
+			}
+			for _, a := range []byte("TA") {
+				if a == ref[p] {
+					continue
+				}
+				b := byte('C')
+				if ref[p+d] == 'C' {
+					b = 'G'
+				}
+				q := []byte(ref)
+				q[p], q[p+d] = a, b
+				out = append(out, pairCase{ref, string(q), fmt.Sprintf("sites %d -> %c and %d -> %c", p+1, a, p+d+1, b)})
+			}
 		}
 	}
 	// two changes in one codon
@@ -430,11 +473,57 @@ func variantPairs(tier string) []pairCase {
 		}
 	}
 	out = append(out, ins([]int{3}, []int{2}, 3), ins([]int{3}, []int{2}, 0), ins([]int{5}, []int{1}, 9))
+	// an insertion (or a both-gap column) and, downstream of it, a single-site change: the alignment columns of
+	// everything after the insertion are shifted against the reference coordinates
+	{
+		afters, lens, alts := []int{0, 3, 7}, []int{1, 2}, []byte("C")
+		if tier == "thorough" {
+			afters, lens, alts = []int{0, 1, 2, 3, 4, 5, 6, 7, 8, 9, 10, 11}, []int{1, 2, 3}, []byte("ACGTN")
+		}
+		for _, a := range afters {
+			for _, l := range lens {
+				for p := a; p < len(ref); p++ {
+					for _, alt := range alts {
+						if alt == ref[p] {
+							alt = 'T'
+							if ref[p] == 'T' {
+								alt = 'A'
+							}
+						}
+						var r, q []byte
+						for k := 0; k <= len(ref); k++ {
+							if k == a {
+								for t := 0; t < l; t++ {
+									r = append(r, '-')
+									q = append(q, "GT"[t%2])
+								}
+							}
+							if k < len(ref) {
+								r = append(r, ref[k])
+								if k == p {
+									q = append(q, alt)
+								} else {
+									q = append(q, ref[k])
+								}
+							}
+						}
+						out = append(out, pairCase{string(r), string(q), fmt.Sprintf("insertion of %d after %d, site %d -> %c", l, a, p+1, alt)})
+					}
+				}
+			}
+		}
+	}
 	// insertion next to a deletion and a SNP
 	out = append(out, pairCase{"ATG-CCCAAATTA", "ATGG--CAAATTA", "insertion then deletion"},
 		pairCase{"ATGCCC-AAATTA", "ATGCCTGAAATTA", "SNP then insertion"},
 		pairCase{"ATGCCCAAATTA--", "ATGCCCAAATTAGG", "insertion at the very end"},
 		pairCase{"--ATGCCCAAATTA", "GGATGCCCAAATTA", "insertion before the first base"})
+	// insertion, deleted reference base(s), insertion - no aligned base in between
+	out = append(out,
+		pairCase{"ATG-C-CCAAATTA", "ATGG-TCCAAATTA", "insertion, deletion of one base, insertion"},
+		pairCase{"ATG--CC-CAAATTA", "ATGGT--ACAAATTA", "insertion of two, deletion of two, insertion"},
+		pairCase{"ATGCCCAAA-T-TA", "ATGCCCAAAG-CTA", "insertion, deletion, insertion near the end"},
+		pairCase{"-A-TGCCCAAATTA", "G-CTGCCCAAATTA", "insertion before base 1, deletion of base 1, insertion"})
 	// a deletion that includes the first reference base is not reported - also when alignment columns precede it
 	// (another sequence's or the query's own insertion before base 1)
 	out = append(out,
